@@ -204,6 +204,14 @@ func (s *aggSpec) argType(i int) *Type {
 }
 
 func (s *aggSpec) resultType() *Type {
+	t := s.plainResultType()
+	if t != nil && s.nullableArgs() && !s.nullExempt() {
+		return tNullable(t)
+	}
+	return t
+}
+
+func (s *aggSpec) plainResultType() *Type {
 	if s.hasComb("State") {
 		return &Type{Name: "AggregateFunction"}
 	}
@@ -240,7 +248,40 @@ func (s *aggSpec) resultType() *Type {
 
 // feed evaluates the argument expressions on the current row and adds them to the accumulator, applying the
 // combinators (-If condition, -Array unfolding) and the "NULL arguments are skipped" rule.
-func (s *aggSpec) feed(ctx *evalCtx, acc accumulator) error {
+// nullExempt: aggregate functions whose result is never wrapped in Nullable (returns_default_when_only_null, or
+// a result type that cannot be inside Nullable).
+func (s *aggSpec) nullExempt() bool {
+	switch s.base {
+	case "count", "uniq", "uniqExact", "groupArray", "groupUniqArray":
+		return true
+	}
+	return s.hasComb("State") || s.hasComb("SimpleState") || s.hasComb("Merge")
+}
+
+// nullableArgs: some (non-condition) argument is statically Nullable, so ClickHouse wraps the function in
+// AggregateFunctionNull: the result type is Nullable(T) and the value is NULL unless a row was actually added.
+func (s *aggSpec) nullableArgs() bool {
+	n := len(s.args)
+	if s.hasComb("If") {
+		n--
+	}
+	for i := 0; i < n; i++ {
+		t := s.args[i].typ
+		if t != nil && s.hasComb("Array") && t.Name == "Array" {
+			t = t.Args[0]
+		}
+		if t != nil && t.Name == "Nullable" {
+			return true
+		}
+	}
+	return false
+}
+
+// accState tracks, per group and aggregate, whether a row was added and whether a row was skipped for a NULL
+// argument (dynamic evidence that the argument is Nullable when its static type is unknown).
+type accFlags struct{ added, sawNull bool }
+
+func (s *aggSpec) feed(ctx *evalCtx, acc accumulator, fl *accFlags) error {
 	var buf [4]Value
 	vals := buf[:0]
 	for _, a := range s.args {
@@ -270,6 +311,7 @@ func (s *aggSpec) feed(ctx *evalCtx, acc accumulator) error {
 				a, ok := v.(Array)
 				if !ok {
 					if v == nil {
+						fl.sawNull = true
 						return nil
 					}
 					return evalErrorf("ILLEGAL_TYPE_OF_ARGUMENT", "-Array combinator needs array arguments, got %s", typeNameOf(v))
@@ -286,22 +328,25 @@ func (s *aggSpec) feed(ctx *evalCtx, acc accumulator) error {
 				for j := range arrs {
 					elem[j] = arrs[j][e]
 				}
-				if err := feedBase(acc, elem, rest); err != nil {
+				if err := feedBase(acc, elem, fl); err != nil {
 					return err
 				}
 			}
+			_ = rest
 			return nil
 		}
 	}
-	return feedBase(acc, vals, nil)
+	return feedBase(acc, vals, fl)
 }
 
-func feedBase(acc accumulator, vals []Value, _ []string) error {
+func feedBase(acc accumulator, vals []Value, fl *accFlags) error {
 	for _, v := range vals {
 		if v == nil {
+			fl.sawNull = true
 			return nil
 		}
 	}
+	fl.added = true
 	return acc.add(vals)
 }
 
